@@ -729,7 +729,23 @@ pub fn cmd_spec(args: &[String]) {
             let f = if class_mode && r.chance(2, 5) { *r.pick(&["v", "iv", "iv"]) } else { *r.pick(&flagsets) };
             let depth = if r.chance(1, 5) { 3 } else { 1 + r.below(2) as u32 };
             let mut g = G { r: &mut r, unicode: f.contains('u'), vmode: f.contains('v'), ngroups_seen: 0, names_seen: vec![] };
-            if class_mode && g.r.chance(1, 8) {
+            if class_mode && g.r.chance(1, 9) {
+                // a concatenation of two to four single-character atoms (literal characters, the dot, under v also class
+                // expressions): the flat Cat the parser builds is compared atom by atom with the models (J line)
+                const SEQ_ATOMS: &[u32] = &[0x61, 0x41, 0x6B, 0x4B, 0x212A, 0x73, 0x17F, 0xDF, 0xE9, 0x3C3, 0x3C2, 0x31, 0x1F600];
+                let k = 2 + g.r.below(3);
+                let mut v = vec![Ast::Bol];
+                for _ in 0..k {
+                    let a = match g.r.below(6) {
+                        0 => Ast::Any,
+                        1 | 2 if g.vmode => { let d = 1 + g.r.below(2) as u32; let e = g.ve(d, false); Ast::VClass(e) }
+                        _ => Ast::Char(*g.r.pick(SEQ_ATOMS)),
+                    };
+                    v.push(a);
+                }
+                v.push(Ast::Eol);
+                (Ast::Seq(v), f)
+            } else if class_mode && g.r.chance(1, 8) {
                 // a single literal character or the dot: the node the parser builds for it is compared with the
                 // models of Parser::char_node / the dot (J line)
                 const ATOMS: &[u32] = &[0x61, 0x41, 0x6B, 0x4B, 0x212A, 0x73, 0x53, 0x17F, 0xDF, 0x1E9E, 0xE9, 0xC9, 0x3C3, 0x3C2, 0x3A3, 0x1C4, 0x1C5, 0x1C6, 0x130, 0x131, 0x49, 0x69,
@@ -760,6 +776,11 @@ pub fn cmd_spec(args: &[String]) {
                 .iter().map(|t| t.to_string()).collect();
             if let Ast::Seq(v) = &ast {
                 if let Ast::VClass(e) = &v[1] { ve_probes(e, &mut ps); }
+                if v.len() > 3 {
+                    let al = ["a", "A", "k", "K", "\u{212A}", "s", "\u{17F}", "\u{e9}", "\u{3c3}", "1", "\n", "\u{1F600}"];
+                    for x in al { for y in al { ps.push(format!("{}{}", x, y)); for z in ["a", "K", "\u{17F}"] { ps.push(format!("{}{}{}", x, y, z)); } } }
+                    for x in al { for y in ["ak", "Ks", "\u{212A}\u{17F}"] { ps.push(format!("{}{}{}", y, x, x)); } }
+                }
             }
             let mut push_cp = |c: u32, ps: &mut Vec<String>| { if let Some(ch) = char::from_u32(c) { ps.push(ch.to_string()); } };
             if let Ast::Seq(v) = &ast {
@@ -819,14 +840,15 @@ pub fn cmd_spec(args: &[String]) {
         // class mode, v-mode class expression: the IR the parser builds, for the model of the class set evaluation
         if class_mode {
             if let Ast::Seq(v) = &ast {
-                if let (3, Some(Ast::VClass(_) | Ast::Char(_) | Ast::Any)) = (v.len(), v.get(1)) {
+                let atoms_only = v.len() >= 3 && v[1..v.len() - 1].iter().all(|a| matches!(a, Ast::VClass(_) | Ast::Char(_) | Ast::Any));
+                if atoms_only {
                     if let Ok(ire) = regress::backends::try_parse(pat.chars().map(|c| c as u32), regress::Flags::from(f)) {
                         let mut t = String::new();
                         crate::dump::node_tokens(&ire.node, &mut t);
                         writeln!(w, "J {}", t).unwrap();
                     }
                     // the early error "a negated class may not contain strings": is [^E] accepted?
-                    if let Some(Ast::VClass(e)) = v.get(1) {
+                    if let (3, Some(Ast::VClass(e))) = (v.len(), v.get(1)) {
                         let mut np = String::from("^[^");
                         print_ve_class(e, &mut np);
                         np.push_str("]$");
